@@ -157,9 +157,15 @@ def is_quiescent_true_write(member_node, facts):
     return False
 
 
-def quiescent_restart_write(facts):
-    ok, why, _ = stop_joins_all(facts)
-    if not ok: return False, 'TP.6c does not hold: ' + why
+def quiescent_restart_write(facts, tp_results=None):
+    if tp_results is not None:
+        # TP.6a-c as decided by the ThreadPool rule set (event-based, every path of stop())
+        res = [r for k in ('TP.6a', 'TP.6b', 'TP.6c') for r in tp_results.get(k, [])]
+        ok = bool(res) and all(r[0] is True for r in res)
+        why = '' if ok else next((f'{r[1]}: {r[3]}' for r in res if r[0] is not True), 'TP.6 not evaluated')
+    else:
+        ok, why, _ = stop_joins_all(facts)
+    if not ok: return False, 'TP.6 does not hold: ' + why
     # every write of `true` outside constructors must be guarded by the flag being false
     ws = [w for w in writes_of(facts, 'tulz::ThreadPool', 'm_isRunning') if w[1] is not None and is_true_lit(w[3])]
     bad = [w for w in ws if not is_quiescent_true_write(w[2], facts)]
